@@ -782,7 +782,7 @@ package netty
 // C10: ReadFrom relinquishes the pooled chunk to the queue: after handing it to write1 it never
 // touches it again (it obtains a new one in the next iteration)
 //@ property C10
-//@ property C10 C12 C14
+//@ property C04 C08 C09 C10 C12 C14
 //@ nouse (*channel).ReadFrom: after "write1" argument 1
 
 // ---------------------------------------------------------------------------
